@@ -1064,9 +1064,11 @@ impl Rasn {
         };
 
         let name_ident = self.to_rust_title_case(name);
+        // The default methods are named after the Rust type name (see `format_default_methods`)
+        let rust_name = name_ident.to_string();
         let field_inits = members.iter().map(|m| {
             let field_name = self.to_rust_snake_case(&m.name);
-            let def_method_name = self.default_method_name(name, &m.name);
+            let def_method_name = self.default_method_name(&rust_name, &m.name);
             quote!( #field_name: #def_method_name() )
         });
 
